@@ -38,7 +38,8 @@ def case_strategy(draw):
             inject[v] = sorted(draw(st.sets(st.integers(0, len(rows) - 1), min_size=1, max_size=len(rows))))
     modes = draw(st.lists(st.sampled_from(["error", "warning", "silent"]), min_size=1, max_size=4))
     return {"kind": "design", "design": d, "frame": spec, "rows": rows, "inject": inject, "modes": modes,
-            "as_categorical": draw(st.booleans()), "chain": draw(st.booleans())}
+            "as_categorical": draw(st.booleans()), "chain": draw(st.booleans()),
+            "new_index": draw(st.sampled_from([None, None, "reversed", "offset", "strings", "repeated"]))}
 
 
 def new_frames(case):
@@ -59,6 +60,11 @@ def new_frames(case):
                 else:
                     c2 = {"name": c["name"], "kind": "str" if all(isinstance(v, str) for v in vals) else "object", "values": vals}
         inj["cols"].append(c2)
+    # the new frame's index is what a filtered, sorted or concatenated frame has: anything but 0..n-1
+    m = len(rows)
+    index = {None: None, "reversed": list(range(m - 1, -1, -1)), "offset": [100 + 3 * i for i in range(m)], "strings": ["r%d" % i for i in range(m)],
+             "repeated": [i // 2 for i in range(m)]}[case.get("new_index")]
+    base["index"] = inj["index"] = index
     return frames.build(base), frames.build(inj)
 
 
@@ -277,6 +283,16 @@ def judge_config(ctx, case):
         if cfg["EVAL_UNSEEN_CATEGORIES"] not in ("error", "warning", "silent"):
             ctx.fail("config", case, f"Config({{{key!r}: {value!r}}}) left an undocumented value", "init")
         return
+    # a refused setting leaves no trace: the configuration still holds a documented value and no new field
+    if not ok and how != "init":
+        try:
+            now = cfg["EVAL_UNSEEN_CATEGORIES"]
+            fields = sorted(k for k in vars(cfg) if not k.startswith("_"))
+        except Exception as e:  # pylint: disable=broad-except
+            now, fields = f"<{type(e).__name__}>", []
+        if now != "error" or fields not in ([], ["EVAL_UNSEEN_CATEGORIES"]):
+            ctx.fail("config", case, f"{key!r}={value!r} via {how} was refused ({type(err).__name__}) but the configuration now reads "
+                     f"{now!r} with fields {fields}", "refused_but_stored")
     if ok:
         ctx.fail("config", case, f"undocumented setting {key!r}={value!r} via {how} was accepted (now {vars(cfg)})", "accepted")
     elif key == "EVAL_UNSEEN_CATEGORIES" and not isinstance(err, ValueError):
